@@ -7,7 +7,11 @@
 #include <string.h>
 #include <errno.h>
 
-#define PY_VERSION_HEX 0x030C0100
+#ifdef FAKE_PY_VERSION_HEX          /* compile variant "py311" of check C28 */
+# define PY_VERSION_HEX FAKE_PY_VERSION_HEX
+#else
+# define PY_VERSION_HEX 0x030C0100
+#endif
 #define WITH_THREAD 1
 
 typedef struct _object { long ob_refcnt; } PyObject;
